@@ -25,7 +25,7 @@ LEVEL = ("Bijection (forward and reverse maps mutually inverse), in-range, relea
          "witnesses. The models are tied to the real Go code by differential execution of generated "
          "operation sequences, and the abstract key-table monitor judges the real code's answers.")
 ASSUME = [
-    "each mutex-protected critical section is one atomic step. subscriber.Manager.TerminateSession is TWO critical sections with allocator.ReleaseIPv4 between them outside the lock: it is modelled and driven as two steps (tpark: the call is held inside ReleaseIPv4 by a parkable allocator stub; tresume: it finishes) with every other operation allowed in between; Manager.AssignAddress (three short sections around the allocator call, the last one only sets State) and the other methods are one step each. Data races inside a critical section are not modelled, they are looked for dynamically: a second harness build with `go build -race` runs one stress sequence kind per component (8 goroutines x 200 operations on one shared object, then a full audit of both lookup directions judged by the same monitor); the race detector only sees the schedules that happened",
+    "each mutex-protected critical section is one atomic step. subscriber.Manager.TerminateSession is TWO critical sections with allocator.ReleaseIPv4 between them outside the lock: it is modelled and driven as two steps (tpark: the call is held inside ReleaseIPv4 by a parkable allocator stub; tresume: it finishes) with every other operation allowed in between (a create for its MAC, a second terminate and — since /repo 9d53e2c — an AssignAddress for it are refused there); Manager.AssignAddress (three short sections around the allocator call, the last one only sets State) and the other methods are one step each. Data races inside a critical section are not modelled, they are looked for dynamically: a second harness build with `go build -race` runs one stress sequence kind per component (8 goroutines x 200 operations on one shared object, then a full audit of both lookup directions judged by the same monitor); the race detector only sees the schedules that happened",
     "vlan: the in-range, exhaustion and release-frame theorems assume GoodCfg = both ranges end below 65535 (VLAN ids are 12 bit); its complement is exactly finding KF-vlan-u16-wrap (the uint16 wrap is modelled: w16, one-cycle fuel); empty ranges are covered; the bijection theorems need no assumption",
     "vlan: vlan_in_ranges_partial exempts exactly the (NTE, pair) records that a load of the history named with an out-of-range pair (finding KF-vlan-load-range) and holds for every other NTE of the same history",
     "pppsess: the converse index direction is stated per MAC and exempts exactly the MACs that had two live sessions at once (finding KF-pppsess-mac-orphan); the id search is fuel-bounded in the model, its termination behind the 65535 guard belongs to C09",
